@@ -10,6 +10,8 @@ R     harness/c11_rest sends every case to a real rest.API (HTTP on 127.0.0.1:0,
       credentials) whose RPC client is wired to recording Cluster / PeerMonitor / IPFSConnector services, and issues
       the client cases through api/rest/client against the same servers.
 V     RestAPITrace: TLC evaluates Good / Conforms / ClientFaithful on every recorded (request, observation) pair.
+CONC  RestAPIConc (auth wrapper statement by statement, N concurrent requests; shared-state variant refuted) and
+      TestConcurrent under -race: per-request outcomes (credentials class, status, own operation reached) judged by TLC.
 """
 import json
 import os
@@ -97,6 +99,9 @@ def run(ctx):
                 "every answer class the API produces: 400 for an option the server rejects, 401, 404, 500, stream-error trailer) through the "
                 "bundled client with 9 credential situations; non-trivial = credentials configured, or at least one "
                 "malformed component, or issued through the client; distinct by abstract request")
+    ctx.rule += ("; concurrent stage: 12 goroutines x 250 simultaneous rounds (thorough 16 x 1500) of pin/unpin/status on a "
+                 "CID unique to each request, half with right and half with 15 kinds of wrong/absent credentials, under "
+                 "the race detector")
     ctx.assumptions = [
         "the recorder behind the API stands for the cluster: 'performs no cluster operation' is observed as 'no RPC reached "
         "the recording Cluster/PeerMonitor/IPFSConnector services'",
